@@ -201,7 +201,7 @@ def build_items(tier):
     items = []
     kinds_q = ["early", "order", "batch"]
     kinds_t = ["early", "order", "batch", "split"]
-    depth = 3 if tier == "quick" else 4
+    depth = 3 if tier == "quick" else 5
     # family A: all sequences, canonical schedule
     alpha = ["PASV", "EPSV", "@data", "LIST", "QUIT", "@drop"]
     for psize in (1, 2):
@@ -220,10 +220,10 @@ def build_items(tier):
     for seq in _seqs(3, ["PASV", "QUIT", "@drop"], 3):
         items.append(("seq", {"name": "seq3-p2", "pool": PORTS[:2], "n": 3, "events": seq}, 0, [], None))
     # family B: start-up races under schedule deviations
-    bound = 1 if tier == "quick" else 2
+    bound = 1 if tier == "quick" else 3
     for name, n, psize, events, ef in RACES:
         case = {"name": name, "pool": PORTS[:psize], "n": n, "events": events, "explore_from": ef}
-        items.append(("race", case, bound, kinds_q if tier == "quick" else kinds_t, 4000 if tier == "quick" else 60000))
+        items.append(("race", case, bound, kinds_q if tier == "quick" else kinds_t, 4000 if tier == "quick" else 200000))
         if name in ("pasv-then-drop", "pasv-pasv-drop", "pasv-epsv-pipelined", "pasv-then-quit", "two-sessions-race-one-port"):
             case6 = dict(case, name=name + "-ipv6", host="::1")
             items.append(("race", case6, bound, kinds_q if tier == "quick" else kinds_t, 4000 if tier == "quick" else 60000))
@@ -252,8 +252,8 @@ def run(tier, seed, t0):
         items = items[k:] + items[:k]
     parts = report.pmap(_work, items)
     part = report.merge_all(parts)
-    bounds = {"pools": [0, 1, 2, 3], "sessions": "1..3", "control_connection": ["IPv4", "IPv6 (::1)"], "sequence_depth": 3 if tier == "quick" else 4,
-              "deviation_bound_races": 1 if tier == "quick" else 2,
+    bounds = {"pools": [0, 1, 2, 3], "sessions": "1..3", "control_connection": ["IPv4", "IPv6 (::1)"], "sequence_depth": 3 if tier == "quick" else 5,
+              "deviation_bound_races": 1 if tier == "quick" else 3,
               "bind_plans": "3^(2*|pool|) for |pool| in {1,2}", "cases": len(items)}
     return report.finish(
         PID, tier, seed, "model_checking", part, t0,
